@@ -45,6 +45,8 @@ def main():
     prop, tier, seed = req["property"], req["tier"], req["seed"]
     out = {"property": prop, "evaluations": 0, "distinct_nontrivial": 0, "failures": [], "replays": [], "samples": []}
     try:
+        import support
+        support.quiet()
         t = importlib.import_module(f"t{prop[1:]}")
         if hasattr(t, "setup"):
             t.setup()
@@ -70,7 +72,12 @@ def main():
         t0 = time.time()
         budget = getattr(t, "BUDGET_S", {"quick": 60, "thorough": 600})[tier]
         exhausted = True
-        for cid, inp in t.cases(tier, seed):
+        all_cases = list(t.cases(tier, seed))
+        out["cases_in_scope"] = len(all_cases)
+        if not getattr(t, "EXHAUSTIVE", False):
+            import random
+            random.Random(seed).shuffle(all_cases)      # a budget-limited run samples the scope evenly
+        for cid, inp in all_cases:
             if time.time() - t0 > budget:
                 exhausted = False
                 break
